@@ -204,3 +204,7 @@ impl Iterator for SplitIter<'_> {
 }
 
 impl FusedIterator for SplitIter<'_> {}
+
+// verification hook: harness text lives outside the repository (see MANIFEST.hooks)
+#[cfg(any(kani, sudachi_verif))]
+include!(concat!(env!("SUDACHI_VERIF_DIR"), "/dic__lexicon__word_infos.rs"));
